@@ -126,6 +126,9 @@ def _load(loader, base, opts, cache=None):
         kw['cache'] = cache
     if loader == 'lammps':
         return Trajectory.from_lammps(**kw)
+    if 'cache' in kw and 'xml_file' in kw:
+        # the file and its cache are the first two parameters: callers pass them by position
+        return Trajectory.from_vasprun(kw.pop('xml_file'), kw.pop('cache'), **kw)
     return Trajectory.from_vasprun(**kw)
 
 
